@@ -514,31 +514,21 @@ impl<'a, T: ColumnProvider> ExpressionExecutionEngine<'a, T> {
                                         let trunc_timestamp = timestamp.duration_trunc(duration).map_err(|_| EvaluationError::FailedToTruncate)?;
                                         Ok(Value::Timestamp(trunc_timestamp))
                                     }
-                                    Err(NonDurationField::Year) => {
-                                        let trunc_timestamp = timestamp
-                                            .with_month(1).unwrap()
-                                            .with_day(1).unwrap()
-                                            .with_hour(0).unwrap()
-                                            .with_minute(0).unwrap()
-                                            .with_second(0).unwrap()
-                                            .with_nanosecond(0).unwrap();
-                                        Ok(Value::Timestamp(trunc_timestamp))
-                                    }
-                                    Err(NonDurationField::Month) => {
-                                        let trunc_timestamp = timestamp
-                                            .with_day(1).unwrap()
-                                            .with_hour(0).unwrap()
-                                            .with_minute(0).unwrap()
-                                            .with_second(0).unwrap()
-                                            .with_nanosecond(0).unwrap();
-                                        Ok(Value::Timestamp(trunc_timestamp))
-                                    }
-                                    Err(NonDurationField::Day) => {
-                                        let trunc_timestamp = timestamp
-                                            .with_hour(0).unwrap()
-                                            .with_minute(0).unwrap()
-                                            .with_second(0).unwrap()
-                                            .with_nanosecond(0).unwrap();
+                                    Err(field) => {
+                                        // Truncate the local calendar date, then map midnight back to an instant: going through
+                                        // with_day / with_hour step by step fails when an intermediate local time is ambiguous or
+                                        // does not exist (daylight saving)
+                                        let date = timestamp.naive_local().date();
+                                        let (month, day) = match field {
+                                            NonDurationField::Year => (1, 1),
+                                            NonDurationField::Month => (date.month(), 1),
+                                            NonDurationField::Day => (date.month(), date.day())
+                                        };
+
+                                        let trunc_timestamp = chrono::NaiveDate::from_ymd_opt(date.year(), month, day)
+                                            .and_then(|date| date.and_hms_opt(0, 0, 0))
+                                            .and_then(|midnight| Local {}.from_local_datetime(&midnight).earliest())
+                                            .ok_or(EvaluationError::FailedToTruncate)?;
                                         Ok(Value::Timestamp(trunc_timestamp))
                                     }
                                 }
